@@ -26,6 +26,7 @@ import (
 	"strings"
 	"sync"
 	"sync/atomic"
+	"syscall"
 	"time"
 
 	"github.com/jech/galene/conn"
@@ -450,7 +451,7 @@ func (h *seqHist) waitKicks(mark, want int) {
 	if want == 0 {
 		return
 	}
-	deadline := time.Now().Add(3 * time.Second)
+	deadline := time.Now().Add(20 * time.Second)
 	for time.Now().Before(deadline) {
 		if countKicks(h.w.since(mark)) >= want {
 			return
@@ -1178,18 +1179,79 @@ type batchResult struct {
 	Notes   map[string]int `json:"notes"`
 }
 
+// Watchdogs.  A batch takes milliseconds; its internal bounded waits are a
+// few seconds.  The watchdog is per batch (it is re-armed by every result
+// line), not per child: a thorough run puts thousands of batches into one
+// child and a loaded machine makes the sum arbitrary.  When it expires the
+// child gets SIGQUIT (the Go runtime prints every goroutine's stack) and the
+// SAME batch is run again alone with ten times the time; only a batch that
+// hangs twice is reported, with the stacks.
+var (
+	batchTimeout      = 90 * time.Second
+	batchRetryTimeout = 900 * time.Second
+)
+
+// self-test of the watchdog (not used by the check):
+// VERIF_GROUP_TIMEOUT=<seconds> shortens the watchdog (retry = 10x);
+// VERIF_GROUP_TESTHANG=<batch>[:<file>] makes the child block in that batch,
+// every time, or only while <file> does not exist (it is created first).
+func init() {
+	if v, err := strconv.Atoi(os.Getenv("VERIF_GROUP_TIMEOUT")); err == nil && v > 0 {
+		batchTimeout = time.Duration(v) * time.Second
+		batchRetryTimeout = 10 * batchTimeout
+	}
+}
+
+func testHang(round int) {
+	v := os.Getenv("VERIF_GROUP_TESTHANG")
+	if v == "" {
+		return
+	}
+	parts := strings.SplitN(v, ":", 2)
+	if n, err := strconv.Atoi(parts[0]); err != nil || n != round {
+		return
+	}
+	if len(parts) == 2 {
+		if _, err := os.Stat(parts[1]); err == nil {
+			return
+		}
+		os.WriteFile(parts[1], nil, 0600)
+	}
+	var mu sync.Mutex
+	mu.Lock()
+	go func() { time.Sleep(time.Hour) }() // keep the deadlock detector quiet
+	mu.Lock()
+}
+
 func runBatchesInChild(t *tr.Trace, seed uint64, rounds int) {
 	// a batch that aborts the process is a finding; the remaining batches
 	// are run in a fresh child (bounded number of restarts)
 	from := 0
 	for restarts := 0; from < rounds && restarts < 12; restarts++ {
-		from = runChild(t, seed, from, rounds)
+		next, hung, _ := runChild(t, seed, from, rounds, batchTimeout)
+		if hung >= 0 {
+			// no runtime abort, no output for batchTimeout: slow or hung?
+			_, hung2, dump := runChild(t, seed, hung, hung+1, batchRetryTimeout)
+			if hung2 >= 0 {
+				t.History("groupconc", "batch", seed, hung)
+				t.Op("-", "batch", "hung")
+				t.Checked("C10.atomic_steps")
+				t.Fail("C10", "atomic_steps", fmt.Sprintf(
+					"concurrent batch %d (seed %d) did not finish within %v and, run again alone, within %v; goroutines: %s",
+					hung, seed, batchTimeout, batchRetryTimeout, dump))
+			} else {
+				t.Note("slow-batch-retried")
+			}
+			next = hung + 1
+		}
+		from = next
 	}
 }
 
-// runChild runs the batches from..rounds-1 in one child process and returns
-// the number of the first batch that has not been run.
-func runChild(t *tr.Trace, seed uint64, from, rounds int) int {
+// runChild runs the batches from..rounds-1 in one child process.  It returns
+// the number of the first batch that has not been dealt with; hung >= 0 is
+// the batch during which the watchdog expired (with the goroutine dump).
+func runChild(t *tr.Trace, seed uint64, from, rounds int, perBatch time.Duration) (next int, hung int, dump string) {
 	exe, err := os.Executable()
 	if err != nil {
 		panic(err)
@@ -1210,7 +1272,13 @@ func runChild(t *tr.Trace, seed uint64, from, rounds int) int {
 	if err := cmd.Start(); err != nil {
 		panic(err)
 	}
-	timer := time.AfterFunc(240*time.Second, func() { cmd.Process.Kill() })
+	var timedOut atomic.Bool
+	timer := time.AfterFunc(perBatch, func() {
+		timedOut.Store(true)
+		cmd.Process.Signal(syscall.SIGQUIT) // goroutine dump on stderr, exit 2
+		time.Sleep(10 * time.Second)
+		cmd.Process.Kill()
+	})
 	defer timer.Stop()
 	sc := bufio.NewScanner(stdout)
 	sc.Buffer(make([]byte, 1<<20), 1<<24)
@@ -1219,6 +1287,9 @@ func runChild(t *tr.Trace, seed uint64, from, rounds int) int {
 		var br batchResult
 		if json.Unmarshal(sc.Bytes(), &br) != nil {
 			continue
+		}
+		if !timedOut.Load() {
+			timer.Reset(perBatch)
 		}
 		last = br.Round
 		t.History("groupconc", "batch", seed, br.Round)
@@ -1237,27 +1308,77 @@ func runChild(t *tr.Trace, seed uint64, from, rounds int) int {
 		}
 	}
 	err = cmd.Wait()
-	if err != nil {
-		// the real code aborted (or hung) under a concurrent schedule
-		msg := stderr.String()
-		first := msg
-		if i := strings.Index(msg, "fatal error:"); i >= 0 {
-			first = msg[i:]
-		}
-		if i := strings.IndexByte(first, '\n'); i >= 0 {
-			first = first[:i]
-		}
-		if len(first) > 300 {
-			first = first[:300]
-		}
-		t.History("groupconc", "batch", seed, last+1)
-		t.Op("-", "batch", "aborted")
-		t.Checked("C10.atomic_steps")
-		t.Fail("C10", "atomic_steps", fmt.Sprintf(
-			"concurrent batch %d (seed %d) aborted the process: %v: %s", last+1, seed, err, first))
-		return last + 2
+	timer.Stop()
+	if err == nil {
+		return rounds, -1, ""
 	}
-	return rounds
+	msg := stderr.String()
+	aborted := strings.Contains(msg, "fatal error:") || strings.Contains(msg, "panic:")
+	if timedOut.Load() && !aborted {
+		// the stacks of the goroutines that are blocked, shortened
+		return last + 1, last + 1, userStacks(msg)
+	}
+	// the real code aborted under a concurrent schedule
+	first := msg
+	if i := strings.Index(msg, "fatal error:"); i >= 0 {
+		first = msg[i:]
+	} else if i := strings.Index(msg, "panic:"); i >= 0 {
+		first = msg[i:]
+	}
+	if i := strings.IndexByte(first, '\n'); i >= 0 {
+		first = first[:i]
+	}
+	if len(first) > 300 {
+		first = first[:300]
+	}
+	t.History("groupconc", "batch", seed, last+1)
+	t.Op("-", "batch", "aborted")
+	t.Checked("C10.atomic_steps")
+	t.Fail("C10", "atomic_steps", fmt.Sprintf(
+		"concurrent batch %d (seed %d) aborted the process: %v: %s", last+1, seed, err, first))
+	return last + 2, -1, ""
+}
+
+// userStacks keeps, from a SIGQUIT dump, the goroutines that run code of
+// galene or of this driver (the runtime's own goroutines are noise), each cut
+// to its first frames.
+func userStacks(dump string) string {
+	var sb strings.Builder
+	for _, blk := range strings.Split(dump, "\n\n") {
+		if !strings.HasPrefix(blk, "goroutine ") ||
+			!(strings.Contains(blk, "galene/") || strings.Contains(blk, "main.")) {
+			continue
+		}
+		lines := strings.Split(blk, "\n")
+		sb.WriteString(lines[0])
+		kept := 0
+		for k := 1; k+1 < len(lines) && kept < 6; k += 2 {
+			fn := strings.TrimSpace(lines[k])
+			if strings.HasPrefix(fn, "runtime.") || strings.HasPrefix(fn, "internal/") {
+				continue
+			}
+			loc := strings.TrimSpace(lines[k+1])
+			if i := strings.Index(loc, " +0x"); i >= 0 {
+				loc = loc[:i]
+			}
+			if i := strings.LastIndexByte(fn, '('); i >= 0 {
+				fn = fn[:i]
+			}
+			sb.WriteString(" < " + fn + " " + loc)
+			kept++
+		}
+		sb.WriteString("\n")
+		if sb.Len() > 3400 {
+			break
+		}
+	}
+	if sb.Len() == 0 {
+		if len(dump) > 1500 {
+			dump = dump[:1500]
+		}
+		return dump
+	}
+	return sb.String()
 }
 
 func childMain() {
@@ -1276,6 +1397,7 @@ func childMain() {
 		// every batch has its own generator, so that a batch is
 		// reproduced from (seed, number) alone
 		r := tr.NewRand(seed + uint64(i)*0x9E3779B97F4A7C15)
+		testHang(i)
 		var br *batchResult
 		if i%3 == 1 {
 			br = runNameRace(r, dir, i)
@@ -1498,7 +1620,7 @@ func runBatch(r *tr.Rand, dir string, round int) *batchResult {
 					b.checked("autokick")
 					select {
 					case <-c.kickCh:
-					case <-time.After(5 * time.Second):
+					case <-time.After(30 * time.Second):
 						b.fail("autokick", fmt.Sprintf("member %q was not kicked after the last operator left", c.id))
 					}
 				}
